@@ -51,7 +51,12 @@ func DrawCDPs(t *rapid.T, issuers, maxN int, kinds []string) []CDPSpec {
 		if twin >= 0 {
 			kind = "http"
 		}
+		upperOf := 0
+		if twin < 0 && i > 0 && out[i-1].Kind == "http" && out[i-1].Twin < 0 && out[i-1].UpperOf == 0 && rapid.IntRange(0, 3).Draw(t, fmt.Sprintf("cdp%d_upper", i)) == 0 {
+			upperOf, kind = i, "http"
+		}
 		out = append(out, CDPSpec{
+			UpperOf: upperOf,
 			Issuer: rapid.IntRange(0, issuers-1).Draw(t, fmt.Sprintf("cdp%d_iss", i)),
 			Kind:   kind,
 			Twin:   twin,
